@@ -502,10 +502,32 @@ def next_u64(i, fr, st, pc, a, t, fn, r):
 
 def index_mut_range(i, fr, st, pc, a, t, fn, r):
     p, rg = a
-    if not (isinstance(rg, Agg) and rg.key == RANGE):
-        raise Undecided("index with %r" % (rg,))
-    s, e = rg.fields
+    if isinstance(p, Ptr) and p.sl is None:
+        tgt = i.read_ptr(st, p)
+        if isinstance(tgt, Ptr):
+            p = tgt
     n = i.slice_len(st, p)
+    if isinstance(rg, W):
+        if rg.val is None:
+            raise Undecided("symbolic index")
+        if rg.val >= n:
+            return i.panic(st, pc, "index out of bounds", fr, t)
+        return _ret(i, st, pc, i.elem_ptr(p, rg.val))
+    if not isinstance(rg, Agg):
+        raise Undecided("index with %r" % (rg,))
+    k = rg.key or ""
+    if k == RANGE:
+        s, e = rg.fields
+    elif k.endswith("RangeTo"):
+        s, e = usize(0), rg.fields[0]
+    elif k.endswith("RangeFrom"):
+        s, e = rg.fields[0], usize(n)
+    elif k.endswith("RangeFull"):
+        s, e = usize(0), usize(n)
+    elif k.endswith("RangeToInclusive"):
+        s, e = usize(0), (usize(rg.fields[0].val + 1) if rg.fields[0].val is not None else rg.fields[0])
+    else:
+        raise Undecided("index with %r" % (rg,))
     if s.val is None or e.val is None:
         raise Undecided("symbolic range index")
     if s.val > e.val or e.val > n:
@@ -696,10 +718,53 @@ def vec_retain(i, fr, st, pc, a, t, fn, r):
     return done
 
 
+def _elem_key(i, st, v):
+    """identity of a sequence element for sort/dedup: the symbolic element name, a token list, or a
+    concrete integer.  Distinct names stand for distinct values (the rules also run lists with repeated names)"""
+    from .sopmodel import elem_name
+    if isinstance(v, Ptr) and v.sl is None:
+        v = i.read_ptr(st, v)
+    if isinstance(v, Agg):
+        nm = elem_name(v)
+        if nm is not None:
+            return ("name", nm)
+        if all(isinstance(f, W) and f.val is not None for f in v.fields):
+            return ("const",) + tuple(f.val for f in v.fields)
+        return None
+    if isinstance(v, Opaque) and v.kind == "string":
+        return ("text", repr(v.data[0]))
+    if isinstance(v, W) and v.val is not None:
+        return ("int", v.val)
+    return None
+
+
 def seq_event(name):
     def f(i, fr, st, pc, a, t, fn, r):
-        # sort / dedup on symbolic elements: order and duplicates are not modelled; the call is recorded
+        """sort(): any total order consistent with equality groups equal elements - modelled as a stable
+        sort by element identity; dedup(): removes adjacent equal elements.  Both are also recorded."""
         i.seq_events = getattr(i, "seq_events", []) + [name]
+        target = a[0]
+        is_vec_place = False
+        h = target
+        if isinstance(target, Ptr) and target.sl is None:
+            inner = i.read_ptr(st, target)
+            if isinstance(inner, Ptr):
+                h = inner
+                is_vec_place = True
+        elems = list(i.slice_elems(st, h))
+        keys = [_elem_key(i, st, e) for e in elems]
+        if any(k is None for k in keys):
+            raise Undecided("%s of elements without identity" % name)
+        if name == "sort":
+            order = sorted(range(len(elems)), key=lambda j: keys[j])
+            new = [elems[j] for j in order]
+            i.write_slice(st, h, new)
+        else:
+            new = [e for j, e in enumerate(elems) if j == 0 or keys[j] != keys[j - 1]]
+            if is_vec_place:
+                _vec_set(i, st, target, new)
+            elif len(new) != len(elems):
+                raise Undecided("dedup on a non-owning view")
         return _ret(i, st, pc, UNIT)
     return f
 
@@ -789,6 +854,7 @@ TABLE = {
     "std::cmp::impls::<impl std::cmp::PartialEq<&B> for &A>::eq": ref_eq,
     "std::vec::Vec::<T, A>::retain": vec_retain,
     "std::slice::<impl [T]>::sort": seq_event("sort"),
+    "core::slice::<impl [T]>::sort_unstable": seq_event("sort"),
     "std::vec::Vec::<T, A>::dedup": seq_event("dedup"),
     "<std::slice::Iter<'a, T> as std::iter::Iterator>::all": slice_iter_all,
     "<std::slice::Iter<'a, T> as std::iter::Iterator>::any": slice_iter_all,
